@@ -47,6 +47,12 @@ fn on_big_stack<F: FnOnce() + Send + 'static>(stack: usize, f: F) {
     }
 }
 
+/// The harness built with debug assertions and overflow checks (./check runs private copies of both
+/// builds, so a rebuild during a run cannot swap the executable under the pool).
+fn devchk_exe() -> std::path::PathBuf {
+    std::env::var_os("NLMC_DEVCHK").map(std::path::PathBuf::from).unwrap_or_else(|| std::path::PathBuf::from("/verif/.target/devchk/nlmc"))
+}
+
 fn main() {
     // one brk-based malloc arena that never trims: per-case allocation churn otherwise turns into
     // one mprotect/munmap per case, which is very slow with 16 processes inside a VM
@@ -180,7 +186,7 @@ fn check(a: &[String]) {
     let mut res = pool::run_pool(&id, &cfg, &pc);
     if p.both_profiles() {
         // the same enumeration on the harness built with debug assertions and overflow checks
-        let dev = std::path::PathBuf::from("/verif/.target/devchk/nlmc");
+        let dev = devchk_exe();
         if !dev.exists() {
             eprintln!("MACHINERY: {} is missing (./check builds it for this property)", dev.display());
             std::process::exit(2);
@@ -226,8 +232,8 @@ fn check(a: &[String]) {
             if id == "C16" {
                 let dir = "/verif/.target/tmp";
                 let (fr, fd) = (format!("{dir}/table16-rel.txt"), format!("{dir}/table16-dev.txt"));
-                let _ = std::process::Command::new("/verif/.target/release/nlmc").args(["table16", tier.name(), &seed.to_string(), &fr]).status();
-                let _ = std::process::Command::new("/verif/.target/devchk/nlmc").args(["table16", tier.name(), &seed.to_string(), &fd]).status();
+                let _ = std::process::Command::new(std::env::current_exe().expect("current exe")).args(["table16", tier.name(), &seed.to_string(), &fr]).status();
+                let _ = std::process::Command::new(devchk_exe()).args(["table16", tier.name(), &seed.to_string(), &fd]).status();
                 if let (Ok(a), Ok(b)) = (std::fs::read_to_string(&fr), std::fs::read_to_string(&fd)) {
                     for (la, lb) in a.lines().zip(b.lines()) {
                         if la != lb && differing.len() < 8 {
